@@ -45,7 +45,7 @@ def run(ctx):
         ctx.transitions += plan_states["generated"]
         ctx.tlc_runs.append({"module": "B2FRobust", "cfg": cfgname, "cached": True, **plan_states})
     else:
-        r = vlib.tlc(ctx, SPECDIR, "B2FRobust", cfgname, timeout=1500)
+        r = vlib.tlc(ctx, SPECDIR, "B2FRobust", cfgname, timeout=1500 if quick else 6000)
         if not r.ok:
             raise vlib.Undecided("plan enumeration failed: %s" % r.error)
         plans = []
